@@ -13,7 +13,7 @@ import subprocess
 import tempfile
 from pathlib import Path
 
-from core import Driver, np, show_rat, show_nats, row_hex, exp_table_line
+from core import Driver, np, show_rat, show_nats, row_hex, exp_table_line, impl_tree
 from ops import rows_arg
 from checklib import SuiteResult
 from suites.multiround import gen_case as gen_mr_case, write_inputs, model_line as mr_model_line, show_dir, run_impl as mr_run_impl, finals
@@ -77,7 +77,7 @@ def gen_run_case(rng: random.Random) -> dict:
         "bf": rng.choice([2, 3, 5, 50]), "thr": rng.choice([0.0, 0.3, 0.5, 0.65, 0.9]), "chg": rng.choice([0.0, 0.05, -0.1]),
         "tol": rng.choice([0.0, 0.05, 0.5]), "crit": rng.choice(CRITS), "rcrit": rng.choice(CRITS),
         "rnum": rng.choice([0, 0, 1, 2]), "rrounds": rng.choice([None, None, 0, 1, 2]), "crounds": rng.choice([0, 0, 1, 2]),
-        "shuffle": rng.random() < 0.5, "save_tree": rng.random() < 0.3, "cent": rng.random() < 0.7,
+        "shuffle": rng.random() < 0.5, "save_tree": rng.random() < 0.4, "cent": rng.random() < 0.7,
         "overwrite": rng.random() < 0.3, "prepopulated": rng.random() < 0.4, "copy": rng.random() < 0.5,
         "monitor": rng.random() < 0.15,
     }
@@ -99,6 +99,10 @@ def run_args(case: dict, inp: Path, out: Path) -> list[str]:
     return a
 
 
+def snapshot(d: Path) -> dict:
+    return {str(p.relative_to(d)): (p.read_bytes() if p.is_file() else None) for p in sorted(d.rglob("*"))}
+
+
 def listing(d: Path) -> list[str]:
     return sorted(p.name for p in d.iterdir())
 
@@ -109,7 +113,7 @@ def suite_run(tier: str, seed: int, mult: int) -> SuiteResult:
     d = Driver()
     work = Path(tempfile.mkdtemp(prefix="bbverif-cli-", dir=SCRATCH))
     cnt = {"runs": 0, "refused": 0, "overwrites": 0, "with_refine": 0, "with_recluster": 0, "save_tree": 0, "monitor_subprocess": 0,
-           "single_file": 0, "unpacked": 0}
+           "single_file": 0, "unpacked": 0, "saved_trees_with_inner_nodes": 0}
     runner, app = _runner()
 
     def fail(sig, what, case):
@@ -128,10 +132,17 @@ def suite_run(tier: str, seed: int, mult: int) -> SuiteResult:
             out = work / f"out{k}"
             before = None
             if case["prepopulated"]:
+                # the leftovers of an earlier run: stale outputs, its input-fps/ (an entry named like a new input, and another one),
+                # and a foreign sub-directory
                 out.mkdir()
                 (out / "old.txt").write_text("x")
                 (out / "clusters.pkl").write_bytes(b"stale")
-                before = {p.name: p.read_bytes() for p in out.iterdir()}
+                (out / "input-fps").mkdir()
+                (out / "input-fps" / paths[0].name).write_bytes(b"stale")
+                (out / "input-fps" / "zzz-old.npy").write_bytes(b"stale")
+                (out / "sub").mkdir()
+                (out / "sub" / "x").write_text("y")
+                before = snapshot(out)
             args = run_args(case, inp, out)
             cnt["runs"] += 1
             res.evaluations += 1
@@ -152,7 +163,7 @@ def suite_run(tier: str, seed: int, mult: int) -> SuiteResult:
             expect_refusal = case["prepopulated"] and not case["overwrite"]
             if expect_refusal:
                 cnt["refused"] += 1
-                now = {p.name: p.read_bytes() for p in out.iterdir()}
+                now = snapshot(out)
                 if code == 0:
                     fail("C15:non-empty-output-dir-not-refused", "exit code 0 on a non-empty output directory without --overwrite", case)
                 elif now != before:
@@ -205,6 +216,10 @@ def suite_run(tier: str, seed: int, mult: int) -> SuiteResult:
                             p = show_nats(".", perms[j]) if (case["shuffle"] and j < len(perms)) else "_"
                             d.cmd(f"RECLUSTER it=1 extra=0/1 stop=0 perms={p}")
                         elif o == "DELINT":
+                            try:
+                                api_tree = impl_tree(t)
+                            except Exception as e:  # noqa: BLE001
+                                api_tree = f"unprintable:{type(e).__name__}"
                             t.delete_internal_nodes()
                             d.cmd("DELINT")
             except Exception as e:  # noqa: BLE001
@@ -248,6 +263,13 @@ def suite_run(tier: str, seed: int, mult: int) -> SuiteResult:
                     t2 = BitBirch.load(tp_)
                     if [list(map(int, c)) for c in t2.get_cluster_mol_ids()] != [list(map(int, c)) for c in api_clusters]:
                         fail("C15:saved-tree-differs", "bitbirch.pkl reloaded gives other clusters", case)
+                    try:
+                        cli_tree = impl_tree(t2)
+                    except Exception as e:  # noqa: BLE001
+                        cli_tree = f"unprintable:{type(e).__name__}"
+                    cnt["saved_trees_with_inner_nodes"] += api_tree.startswith("full h=") and not api_tree.startswith("full h=0")
+                    if cli_tree != api_tree:
+                        fail("C15:saved-tree-is-not-the-tree-the-api-saves", f"cli {cli_tree[:150]} vs api {api_tree[:150]}", case)
             want = {"clusters.pkl", "config.json", "timings.json", "input-fps"} | ({"cluster-centroids-packed.pkl"} if case["cent"] else set()) \
                 | ({"bitbirch.pkl"} if case["save_tree"] else set())
             have = set(listing(out)) - {"monitor-rss.csv", "max-rss.txt", "max-rss.txt.tmp"}
@@ -307,7 +329,10 @@ def suite_multiround(tier: str, seed: int, mult: int) -> SuiteResult:
             if extra["prepopulated"]:
                 out.mkdir()
                 (out / "old.txt").write_text("x")
-                before = {p.name: p.read_bytes() for p in out.iterdir()}
+                (out / "input-fps").mkdir()
+                (out / "input-fps" / paths[0].name).write_bytes(b"stale")
+                (out / "input-fps" / "zzz-old.npy").write_bytes(b"stale")
+                before = snapshot(out)
             args = ["multiround", str(indir), "-o", str(out), "--ps", str(extra["ps"]), "-b", str(case["bf"]), "-t", repr(case["thr"]),
                     "--mid-threshold-change", repr(case["chg"]), "--set-merge", case["init"], "--set-mid-merge", case["mid"],
                     "--tolerance", repr(case["tol"]), "--num-mid-rounds", str(case["mids"]), "--bin-size", str(case["bin"]),
@@ -326,7 +351,7 @@ def suite_multiround(tier: str, seed: int, mult: int) -> SuiteResult:
             res.evaluations += 1
             if extra["prepopulated"] and not extra["overwrite"]:
                 cnt["refused"] += 1
-                now = {p.name: p.read_bytes() for p in out.iterdir()}
+                now = snapshot(out)
                 if code == 0:
                     fail("C15:non-empty-output-dir-not-refused", "bb multiround exit code 0 on a non-empty output directory", case | extra)
                 elif now != before:
@@ -360,6 +385,9 @@ def suite_multiround(tier: str, seed: int, mult: int) -> SuiteResult:
             have = {n for n in listing(out) if not n.startswith("round-")}
             if have != want:
                 fail("C15:output-dir-does-not-hold-exactly-the-new-outputs", f"extra {sorted(have - want)} missing {sorted(want - have)}", case | extra)
+            ents = sorted((out / "input-fps").iterdir()) if (out / "input-fps").is_dir() else []
+            if [e.name for e in ents] != [p.name for p in paths] or any(e.is_symlink() == extra["copy"] for e in ents):
+                fail("C15:input-fps-copy/symlink-wrong", str([(e.name, e.is_symlink()) for e in ents]), case | extra)
             if len(paths) > 1:
                 res.nontrivial += 1
             if len(res.samples) < 2:
